@@ -143,11 +143,11 @@ impl Rig {
     fn reset(&mut self) {
         let cpu = &mut self.cpu;
         for a in (DATA..DATA + 8).chain(CELL..CELL + 8) {
-            cpu.bus.dram[(a - 0x400000) as usize] = 0;
+            let _ = cpu.bus.write(a, 0);
         }
         cpu.bus.io_registrs1[0] = 0;
-        cpu.bus.memory[(0xffd000 - 0xffbf20) as usize] = 0;
-        cpu.bus.exception_handling_vector[0xff] = 0;
+        let _ = cpu.bus.write(0xffd000, 0);
+        let _ = cpu.bus.write(0xff, 0);
         cpu.bus.io_registrs2[0xb0] = 0;
         cpu.bus.io_port_in = [0; crate::bus::IO_PORT_SIZE];
         cpu.bus.io_port_latch = [0; crate::bus::IO_PORT_SIZE];
